@@ -90,6 +90,11 @@ type Router struct {
 	Cfg    Cfg
 	Opener *Opener
 	stock  []StockPkt
+	// Recycle makes Process reuse one packet object for all packets of this router, recycled the way the packet pool
+	// recycles buffers (reset with the standard headroom; whatever reset leaves behind stays), as the receive loops
+	// of the real router do. Not safe for concurrent Process calls.
+	Recycle  bool
+	recycled *router.Packet
 }
 
 func SiblingAddr(k int) string { return fmt.Sprintf("10.0.0.%d:30042", 1+k) }
@@ -229,6 +234,15 @@ func (r *Router) Process(raw []byte, in Ingress) (res Result) {
 		}
 	}()
 	pkt := r.NewPacket(raw, in)
+	if r.Recycle {
+		if r.recycled == nil {
+			r.recycled = pkt
+		} else {
+			fresh := pkt
+			pkt = r.recycled
+			router.VerifReloadPacket(pkt, raw, fresh.Link, router.VerifPacketRemote(fresh))
+		}
+	}
 	res.Fast = r.VerifProcess(pkt)
 	switch res.Fast.Disp {
 	case router.VerifForward:
